@@ -55,3 +55,42 @@ def decToI64 (s : Bytes) : Except NumErr Int :=
 
 end Model
 end JV
+
+namespace JV
+namespace Model
+
+/-- the `do … while ((value /= 10) && (p < last))` loop of `from_integer` on a non-negative value:
+    least significant digit first; `fuel` is the buffer size (255 in the code) -/
+def revDigits : Nat → Nat → Bytes
+  | 0, _ => []
+  | fuel + 1, n => (48 + n % 10) :: (if n / 10 = 0 then [] else revDigits fuel (n / 10))
+
+/-- the same loop on a negative value, with C++ truncating `%` and `/`: `48 - (value % 10)` -/
+def revDigitsNeg : Nat → Int → Bytes
+  | 0, _ => []
+  | fuel + 1, v => (48 - Int.tmod v 10).toNat :: (if Int.tdiv v 10 = 0 then [] else revDigitsNeg fuel (Int.tdiv v 10))
+
+/-- `from_integer(value, result)` (write_number.hpp:39-82) for a signed value -/
+def fromInteger (v : Int) : Bytes :=
+  if v < 0 then 45 :: (revDigitsNeg 255 v).reverse else (revDigits 255 v.toNat).reverse
+
+/-- … and for an unsigned value -/
+def fromUnsigned (n : Nat) : Bytes := (revDigits 255 n).reverse
+
+/-- how the JSON parser classifies a grammatical integer literal (json_parser.hpp:2447-2541) -/
+inductive IntClass where
+  | i64 (v : Int) | u64 (v : Nat) | bigint (text : Bytes) | viaDouble (text : Bytes)
+  deriving Repr, DecidableEq
+
+def classifyInteger (losslessBignum : Bool) (buffer : Bytes) : IntClass :=
+  if buffer.head? = some 45 then
+    match decToI64 buffer with
+    | .ok v => .i64 v
+    | .error _ => if losslessBignum then .bigint buffer else .viaDouble buffer
+  else
+    match decToU64 buffer with
+    | .ok v => .u64 v
+    | .error _ => if losslessBignum then .bigint buffer else .viaDouble buffer
+
+end Model
+end JV
